@@ -10,7 +10,7 @@ MAGIC = b'<lv-1.0>'
 DEPTHS = [0, 1, 2, 3, 8, 9, 10, 11, 12, 18, 19, 20, 21, 22, 38, 39, 40, 41, 42, 78, 79, 80, 81, 82,
           158, 159, 160, 161, 162, 200, 253, 254, 255]
 WRAPS = ['system', 'popen', 'fork', 'vfork', 'execve', 'execv', 'execvp', 'posix_spawn', 'posix_spawnp']
-IMPL_KW = dict(exclude=('conf.c',), ldflags=['-Wl,' + ','.join('--wrap=' + w for w in WRAPS)])
+IMPL_KW = dict(exclude=('conf.c',), ldflags=['-Wl,' + ','.join('--wrap=' + w for w in WRAPS + ['realloc'])])
 
 
 
@@ -251,6 +251,65 @@ def gen_tables(rng, counts):
     return cases
 
 
+# registrations: the context table has room for 20 entries (the null context takes one) and doubles at the 20th, 40th, 80th ..
+# registered context; the function table has room for 10, 7 of them taken by the library, and doubles at the 3rd, 13th, 33rd,
+# 73rd, 153rd registered function
+REG_COUNTS_QUICK = [0, 1, 2, 3, 4, 5, 9, 10, 11, 19, 20, 21, 39, 40, 41]
+REG_COUNTS_MORE = [12, 13, 14, 18, 22, 32, 33, 34, 38, 42, 72, 73, 74, 78, 79, 80, 81, 152, 153, 154, 158, 159, 160, 161, 200, 240]
+
+
+def reg_file(first, nctx, nb):
+    """a file for a cycle whose contexts are g<first> .. g<first+nctx-1> and whose functions are b0 .. b<nb-1>: blocks of the first, the
+    last and a middle registered context, of the names just outside the registered range (a name of an earlier cycle among them: all of
+    these fall to the null context), lines that are expanded and dropped - a % that starts no call, unknown calls, calls to the
+    registered functions - in every kind of block"""
+    pct = [b'%zz', b'%nosuch(1)', b'%100% b', b'%b0(x)', b'%%b%d(x)' % max(0, nb - 1), b'%%b%d(x)' % nb, b'%B0 )x)', b'%b0(%nosuch(%b0(1)))', b'%%']
+    names = []
+    if nctx:
+        names += [first, first + nctx - 1, first + nctx // 2]
+    names += [first + nctx, first - 1 if first else first + nctx + 1]
+    lines = list(pct[:3])
+    for j, k in enumerate(names):
+        lines += [b'begin g%d' % k, b't%d' % j, pct[(3 + j) % len(pct)], pct[(4 + j) % len(pct)], b'end']
+    lines += [b'begin nosuch', b'begin g%d' % first, b'u'] + pct[3:] + [b'end', b'v', b'end', b'begin null', b'w', b'end', b'z 1']
+    return render(lines)
+
+
+def gen_registered(rng, counts, cycles=3):
+    """contexts AND functions registered in every number of the list before values with an unmatched %, unknown context names, unknown calls
+    and calls to the registered functions are expanded and parsed; then a second and a third init / register / use / free cycle with
+    other numbers of registrations (the handler numbers, and with them the context names g<k>, run on through the case)"""
+    xs = ['a 100% b', '%nosuch(1)', '%', '100%', '%b0(x)', '%B0 )x)', '%b0(%b0(100%))', "'%nosuch(1)'", '%nosuch(%get(k d))']
+    cases = []
+    pairs = [(n, n) for n in counts] + [(n, rng.choice(counts)) for n in counts] + [(rng.choice(counts), n) for n in counts]
+    for (nc, nb) in pairs:
+        plan = [(nc, nb)]
+        for _ in range(cycles - 1):
+            plan.append((rng.choice(counts), rng.choice(counts)))
+        if sum(c for c, _ in plan) > 590:          # the harness has 600 distinct handlers
+            plan = plan[:1]
+        files, toks, first = [], [], 0
+        for ci, (c, b) in enumerate(plan):
+            files.append(ftok('a%d' % ci, reg_file(first, c, b)))
+            toks += ['i']
+            # contexts first and functions second, or the other way round, or interleaved
+            order = rng.randrange(3)
+            if order == 0:
+                toks += ['R%d' % c, 'b%d' % b]
+            elif order == 1:
+                toks += ['b%d' % b, 'R%d' % c]
+            else:
+                h = c // 2
+                toks += ['R%d' % h, 'b%d' % b, 'R%d' % (c - h)]
+            toks += ['d'] + [xop(t) for t in xs[:4]] + [xop('%%b%d(x)%%b%d(y)' % (max(0, b - 1), b)), 'pa%d' % ci, 'd']
+            if rng.random() < 0.5:
+                toks += [xop(rng.choice(xs)), 'pa%d' % ci]          # a second parse with the tables as they are
+            toks += ['f', 'l']
+            first += c
+        cases.append('hist ' + ' '.join(files + toks))
+    return cases
+
+
 def gen_lifecycle(rng, n):
     """init .. free cycles 1-5 deep; the ledger is read after every free.  Within one cycle no variable is
     stored twice (replacing a variable is property C10's business)"""
@@ -485,6 +544,8 @@ def dir_specs(tier):
              '79x255', '80x255', '81x255', '128x159', '1024x19', '1023x19,1x18', '1023x19,1x20', '2048x9', '2100x9', '320x63', '36x1']
     if tier != 'quick':
         for L in range(3, 256):
+            if L < 31 and CB % (L + 1):
+                continue        # thousands of very short names: only the lengths whose names and blanks can add up to CONFIG_BUFF exactly
             c = CB // (L + 1)
             specs += ['%dx%d' % (c, L), '%dx%d' % (c + 1, L)]
             r = CB - c * (L + 1)            # what the last name must fill to hit CB exactly, one below, one above
